@@ -134,9 +134,13 @@ def ob_algebra():
 def run(tier, seed, t0):
     ml = [0, 1, 20] if tier == "quick" else list(range(0, 34))
     jobs = [ob_algebra] + [(lambda m=m: ob_sign(m)) for m in ml] + [(lambda m=m, i=i: ob_verify(m, i)) for m in ml for i in ((3,) if tier == "quick" else (0, 1, 3, 16))]
-    res = run_parallel(jobs, nproc=10)
+    # H2(M || w) byte framing (the hash the signature binds the message with), including messages longer than 255 bytes
+    import c16
+    hl = [0, 3, 255, 256, 300] if tier == "quick" else [0, 1, 3, 20, 55, 56, 64, 255, 256, 257, 300, 511, 512, 1000, 4096]
+    jobs += [(lambda n=n: c16.ob_hash_framing("h2", n, 384)) for n in hl]
+    res = run_parallel(jobs, nproc=14)
     return finish("C09", tier, seed, "model_checking", res, t0,
-                  assumptions=["pairing and group/field layers uninterpreted (C12, C13); H1/H2 framing in C16", "equality with the Annex A value: replay reference only",
+                  assumptions=["pairing and group/field layers uninterpreted (C12, C13); H2 framing decided here per message length (incl. > 255 bytes), H1 framing and hash-to-range arithmetic in C16", "equality with the Annex A value: replay reference only",
                                "forgery rejection = the accept-path characterisation + collision resistance of H2/SM3"],
                   explanation="MIR of sign / verify_sign executed symbolically; outputs and accept/reject conditions compared with GM/T 0044.2 over the same uninterpreted functions; every reachable assert/panic is a violation.",
                   rule="sign per message length, verify per (message length, identity length), algebra")
